@@ -8,6 +8,27 @@ ROOT = os.path.dirname(os.path.dirname(os.path.abspath(__file__)))
 
 # id -> (category, technique, text, note, design_ref)
 CHECKS = {
+    "C15": (
+        "exploration",
+        "history + executable dict model: exhaustive mutator sequences on real ComponentRegistry/Library, all observers after every step",
+        "Every register/unregister/clear sequence of length 5 (quick) / 6 (thorough) over 3 names (one a protected tag name) x 3 classes, under 5 formatter/protection configurations, is run on a fresh registry with a private Library; after each step all(), get() per name, set(library.tags) and the identity of pre-existing tag functions are compared with a dict model that also predicts the exception class. Exhaustive within the bound; longer two-registry histories are seeded samples.",
+        "Private Library instances only; unprotected pre-existing tags colliding with component tags are excluded (DESIGN.md §4).",
+        "DESIGN.md §2 C15",
+    ),
+    "C11": (
+        "exploration",
+        "differential monitor against the real CPython call: exhaustive signatures x argument sequences through NodeMeta.wrapper_render (fast and fallback validators, plain and spread renderings) and through compiled {% tag %} templates",
+        "All render() signatures with up to 4 (quick) / 5 (thorough) parameters over positional-only / positional-or-keyword / *args / keyword-only / **kwargs with and without defaults, crossed with all argument sequences up to length 4 / 5 over positional, each parameter name, unknown, non-identifier and reserved-word keywords; acceptance, exception class and bindings must equal those of the compiled Python call. Exhaustive within the bound.",
+        "Trusts CPython's call semantics as the oracle and the fake TagAttr objects that feed resolve_params; a stratified sample goes through real template compilation.",
+        "DESIGN.md §2 C11",
+    ),
+    "C09": (
+        "exploration",
+        "invariant monitors (partition, contents, line numbers) on every token stream + differential vs stock DebugLexer + reference lexer for quote-aware boundaries; Parser hook to observe the stream Template compiles from",
+        "200k (quick) / 3M (thorough) generated sources (typed pieces with quoted strings holding %} }} newlines escapes, multi-line tags, verbatim blocks, unterminated constructs, raw delimiter noise) are lexed by the real parse_template; every stream is checked for contiguity/coverage, contents-vs-span, lineno = 1 + preceding newlines, identity with stock Django when no block tag holds a quote, and equality with a reference lexer otherwise; a sample is compiled through Template() to observe the tokens handed to the Parser and the template_debug line.",
+        "Reference lexer written from the statement (vf/model/lexer.py); multiline tags on (library default).",
+        "DESIGN.md §2 C09",
+    ),
     "C18": (
         "exploration",
         "reference-model monitor (OrderedDict LRU) + linked-list invariant walker after every operation, exhaustive op sequences; differential vs fresh compile for cached_template/component renders",
